@@ -69,7 +69,8 @@ PROPS = {
         technique="bounded-exhaustive enumeration of configurations (stanza-kind product x header variants) x system states through the real Parse/Prepare/RouterAdvertisement against an independent expected-RA model; first transmitted RA of the real advertiser checked under virtual time",
         text="The full product of stanza-kind variants (quick: <=2 non-default dimensions) and header/max_interval/name-group variants, each against 6-8 system states, is parsed, prepared through the real Prepare methods and built three times; every header field and every option (kind, order, values) must equal a reference RA derived from the statement; rebuilds must be identical and the configuration unchanged. Part 'send' binds this to the sending path: the payload of the first WriteTo of the real Advertiser.Run equals the same expected RA.",
         note="Address/route source is a fake behind the NewAddresser seam (staged by overlay); clock injected. Stanza variants outside the listed ones and >2 stanzas of a kind are not covered.",
-        parts=[part("build", "internal/config", "TestVerifC01", shards={"quick": 4, "thorough": 16})],
+        parts=[part("build", "internal/config", "TestVerifC01", shards={"quick": 4, "thorough": 16}),
+               part("send", "internal/corerad", "TestVerifC01Send", mode="sched", gomaxprocs=2, shards={"quick": 4, "thorough": 4})],
     ),
     "C12": dict(
         level="exploration", engine="enum",
